@@ -128,6 +128,19 @@ CHECKS = {
         "Trusted: the Pandas executor evaluating single steps on materialised frames.",
         "4/C06",
     ),
+    "C26": (
+        "runtime acceptance monitor on the real builder methods vs a reference rule evaluator",
+        "Valid prefixes from the shared generator (ending in every operator kind; interior order_rows, select/drop "
+        "chains and mergeable extends boosted) are offered ~50 probe-step templates: rule-violating ones (unknown column - "
+        "never existing or removed earlier - in every argument position of every builder, assignment of a "
+        "partition/order column, use of a column produced in the same extend, non-aggregating and too-complex "
+        "project/window expressions, join with missing keys, join with non-key common columns and the check requested, "
+        "concat of different column sets) and rule-conforming counterparts. The chained builder must raise at the call "
+        "iff a reference rule evaluator (Python ast over the step's arguments and the prefix's declared columns) says a "
+        "rule is broken. Evidence tabulates rule x prefix-ending-kind coverage.",
+        "Trusted: the ~80-line rule evaluator; declared columns = columns of the materialised prefix.",
+        "4/C26",
+    ),
 }
 
 NOT_BUILT = "check not built yet (build in progress, see DESIGN.md section 8)"
